@@ -234,6 +234,12 @@ func registerJSONModels(e *Engine) {
 		}
 		return Str{S: "\x00<no such json string>"}
 	})
+	// JSONIsList: the member exists and is encoded as a JSON list (a nil slice encodes as null)
+	v("JSONIsList", func(in *Interp, fr *frame, fn *ssa.Function, a []Val) Val {
+		x, ok := get(in, a)
+		s, isS := x.(Slice)
+		return in.ctx.BoolC(ok && isS && s != nil)
+	})
 	v("JSONStrings", func(in *Interp, fr *frame, fn *ssa.Function, a []Val) Val {
 		x, ok := get(in, a)
 		if s, isS := x.(Slice); ok && isS {
